@@ -136,6 +136,9 @@ func registerChecks() {
 				c.Ops = append(c.Ops, Op{Kind: OpRender, F: 0})
 				cs = append(cs, c)
 			}
+			for i := 0; i < cx.N(200, 5000); i++ {
+				cs = append(cs, genFailThenRenderCase(cx, i, "C07"))
+			}
 			return cs
 		},
 		Oracle: oracleC07,
@@ -165,6 +168,10 @@ func registerChecks() {
 				cs = append(cs, genSharedCase(cx, i))
 			}
 			cs = append(cs, fileCases(cx, cx.N(300, 4000), validGen, defaultFileCfg, 3)...)
+			// jobs in which a File fails to render, among jobs that render Dicts
+			for i := 0; i < cx.N(120, 3000); i++ {
+				cs = append(cs, genFailThenRenderCase(cx, i, "C09"))
+			}
 			return cs
 		},
 		Oracle: oracleC09,
@@ -196,8 +203,8 @@ func registerChecks() {
 		},
 		Oracle: oracleC10,
 	}
-	checks["C11"] = &PropCheck{Gen: genLitCases, Oracle: oracleC11}
-	checks["C12"] = &PropCheck{Gen: genStrCases, Oracle: oracleC12}
+	checks["C11"] = &PropCheck{Gen: func(cx *CheckCtx) []*Case { return append(genLitCases(cx), genLitSeqCases(cx)...) }, Oracle: oracleC11}
+	checks["C12"] = &PropCheck{Gen: func(cx *CheckCtx) []*Case { return append(genStrCases(cx), genStrSeqCases(cx)...) }, Oracle: oracleC12}
 	checks["C13"] = &PropCheck{
 		Gen: func(cx *CheckCtx) []*Case {
 			var cs []*Case
